@@ -12,7 +12,7 @@ import re
 from fractions import Fraction
 
 from verif import core
-from verif.tree import walk, show, stmt_list, meth, strip
+from verif.tree import walk, walk_fn, show, stmt_list, meth, strip
 
 LEVEL = "other"
 US = "opm/input/eclipse/Units/UnitSystem.cpp"
@@ -516,6 +516,113 @@ def run(chk):
                 chk.instance(r_io, "%s:%s:flag" % (cls, f["n"]), sample=dict(guard=show(g["cond"]) if g else None, sets=sets))
                 if not okg or sets != ["(this.si = %s)" % setv]:
                     chk.violation(r_io, "%s:%s:flag" % (cls, f["n"]), "%s: the si flag protocol changed (guard %s, sets %s): a double or a missing conversion becomes possible" % (f["q"], show(g["cond"]) if g else None, sets), f["file"], f["l"])
+    # ---- C02.cache: DeckItem keeps ONE buffer that is converted in place between deck units and SI
+    r_ca = chk.rule("C02.cache", "the in-place deck-unit <-> SI conversions of DeckItem (getData<double>, getSIDoubleData, get<UDAValue>) choose between the default and the active dimension with the same predicate on the value status, index the dimensions the same way and apply mutually inverse conversions", floor=5)
+    dx = chk.facts(["opm/input/eclipse/Deck/DeckItem.cpp"], files_re="^/repo/opm/input/eclipse/Deck/DeckItem")
+    sites = {}
+    for f in dx.fns:
+        if f.get("cls") != "Opm::DeckItem" or not f.get("body"):
+            continue
+        if f["n"] not in ("getData", "getSIDoubleData", "get"):
+            continue
+        refs = {n["n"] for n in walk_fn(f) if n["k"] == "Mem" and n["n"] in ("default_dimensions", "active_dimensions")}
+        if refs != {"default_dimensions", "active_dimensions"}:
+            continue
+        sel = []
+        for n in walk_fn(f):
+            if n["k"] == "If":
+                c_, t_, e_ = n["cond"], n["then"], n.get("else")
+            elif n["k"] == "Cond" and len(n.get("c", [])) == 3:
+                c_, t_, e_ = n["c"]
+            else:
+                continue
+            if e_ is None:
+                continue
+            tm = {x["n"] for x in walk(t_) if x["k"] == "Mem" and x["n"] in ("default_dimensions", "active_dimensions")}
+            em = {x["n"] for x in walk(e_) if x["k"] == "Mem" and x["n"] in ("default_dimensions", "active_dimensions")}
+            if tm == {"default_dimensions"} and em == {"active_dimensions"}:
+                sel.append((show(strip(c_)), n["l"], c_, False))
+            elif tm == {"active_dimensions"} and em == {"default_dimensions"}:
+                sel.append(("!(" + show(strip(c_)) + ")", n["l"], c_, True))
+        conv = sorted({meth(n)[0] for n in walk_fn(f) if (meth(n)[0] or "") in ("convertSiToRaw", "convertRawToSi")})
+        idx = sorted({show(strip(x["c"][1] if x["k"] == "Idx" else x["a"][1])) for x in walk_fn(f)
+                      if (x["k"] == "Idx" and strip(x["c"][0])["k"] == "Mem" and strip(x["c"][0])["n"] in ("default_dimensions", "active_dimensions")) or
+                         (x["k"] == "OpCall" and x.get("op") == "[]" and len(x.get("a", [])) == 2 and strip(x["a"][0])["k"] == "Mem" and strip(x["a"][0])["n"] in ("default_dimensions", "active_dimensions"))})
+        name = "%s%s" % (f["n"], "<%s>" % ",".join(f.get("targs") or []) if f.get("targs") else "")
+        sites[name] = dict(sel=sel, conv=conv, idx=idx, f=f)
+    if len(sites) < 3:
+        raise core.AnalysisBroken("DeckItem: fewer than three functions choose between default_dimensions and active_dimensions (%s)" % sorted(sites))
+    # semantic form of a selection predicate: the set of value::status enumerators for which it holds
+    vx = chk.facts(["opm/input/eclipse/Deck/DeckItem.cpp"], files_re="^/repo/opm/input/eclipse/Deck/value_status.hpp")
+    st_enum = vx.enums.get("Opm::value::status")
+    st_all = frozenset(i_["n"] for i_ in st_enum["items"]) if st_enum else None
+    st_fns = {f["n"]: f for f in vx.fns if f.get("body") and f["q"].startswith("Opm::value::")}
+
+    def holds(e, depth=0):
+        """set of statuses for which the boolean expression over one status value holds; None if not of that form"""
+        e = strip(e)
+        if st_all is None:
+            return None
+        if e["k"] == "Bin" and e.get("op") in ("||", "&&"):
+            a, b = holds(e["c"][0], depth), holds(e["c"][1], depth)
+            if a is None or b is None:
+                return None
+            return (a | b) if e["op"] == "||" else (a & b)
+        if e["k"] == "Un" and e.get("op") == "!":
+            a = holds(e["c"][0], depth)
+            return None if a is None else (st_all - a)
+        if e["k"] == "Bin" and e.get("op") in ("==", "!="):
+            for x in (strip(e["c"][0]), strip(e["c"][1])):
+                if x["k"] == "Ref" and x.get("d") == "Enum" and (x.get("q") or "").startswith("Opm::value::status"):
+                    return frozenset({x["n"]}) if e["op"] == "==" else (st_all - {x["n"]})
+            return None
+        if e["k"] == "Call" and len(e.get("a", [])) == 1 and depth < 2:
+            fn_ = st_fns.get((e.get("fn") or "").split("::")[-1])
+            if fn_ is not None:
+                rets = [x for x in walk_fn(fn_) if x["k"] == "Return"]
+                if len(rets) == 1 and rets[0].get("e") is not None:
+                    return holds(rets[0]["e"], depth + 1)
+        return None
+    import re as _re
+    def norm_sel(t):
+        # the predicate and what it is applied to, without the spelling of the index variable
+        t = _re.sub(r"this\.value_status\[[^\]]*\]", "this.value_status[i]", t)
+        return t.replace("Opm::", "")
+    preds = {}
+    for name, st in sorted(sites.items()):
+        shown = []
+        for t, l, ce, neg in st["sel"]:
+            hs = holds(ce)
+            if hs is not None:
+                if neg:
+                    hs = st_all - hs
+                key_ = "status in {%s}" % ", ".join(sorted(hs))
+            else:
+                key_ = norm_sel(t)
+            shown.append(key_)
+            preds.setdefault(key_, []).append((name, l))
+        chk.instance(r_ca, name + ":select", sample=dict(function=name, default_dimension_if=shown, conversions=st["conv"], dimension_index=st["idx"]))
+        if not st["sel"]:
+            chk.violation(r_ca, name + ":select", "DeckItem::%s uses both default_dimensions and active_dimensions but no two-way choice between them was recognised" % name, st["f"]["file"], st["f"]["l"])
+    if len(preds) > 1:
+        major = max(preds.items(), key=lambda kv: len(kv[1]))[0]
+        for t, where in sorted(preds.items()):
+            if t == major:
+                continue
+            for name, l in where:
+                chk.violation(r_ca, name + ":predicate", "DeckItem::%s takes the default dimension when `%s`, the other conversions when `%s`: a value converted to SI with one dimension is converted back with another (defaulted items in FIELD/LAB/PVT-M decks change value)" % (name, t, major), sites[name]["f"]["file"], l)
+    gd = [n for n in sites if n.startswith("getData")]
+    gs = [n for n in sites if n.startswith("getSIDoubleData")]
+    if not gd or not gs:
+        raise core.AnalysisBroken("DeckItem::getData<double> / getSIDoubleData not found")
+    chk.instance(r_ca, "inverse", sample=dict(getData=sites[gd[0]]["conv"], getSIDoubleData=sites[gs[0]]["conv"]))
+    if sites[gd[0]]["conv"] != ["convertSiToRaw"] or sites[gs[0]]["conv"] != ["convertRawToSi"]:
+        chk.violation(r_ca, "inverse", "getData<double> must apply convertSiToRaw only (has %s) and getSIDoubleData convertRawToSi only (has %s)" % (sites[gd[0]]["conv"], sites[gs[0]]["conv"]), sites[gd[0]]["f"]["file"], sites[gd[0]]["f"]["l"])
+    def norm_idx(t):
+        return _re.sub(r"\b[A-Za-z_]*[iI]ndex\b|\bindex\b", "i", t).replace("this.active_dimensions.size()", "n").replace("dim_size", "n")
+    ia, ib = {norm_idx(x) for x in sites[gd[0]]["idx"]}, {norm_idx(x) for x in sites[gs[0]]["idx"]}
+    chk.instance(r_ca, "index", sample=dict(getData=sorted(ia), getSIDoubleData=sorted(ib)))
+
     chk.assumptions += [
         "tables/measure_dims.json and tables/physical_units.json are the independent oracle (SI definitions; Eclipse unit conventions)",
         "that each keyword item carries the physically right dimension is not decided",
